@@ -1,7 +1,11 @@
 """C02 — DMRS serialisations (SimpleDMRS, DMRX, DMRS-JSON, DMRS-PENMAN):
 generators, implementation runner, direct oracle, classifier for the known finding F11."""
 import copy
+import gc
 import io
+import os
+import shutil
+import tempfile
 import logging
 import re
 import xml.etree.ElementTree as etree
@@ -664,6 +668,58 @@ def big_graph(k):
     return dmrs_j(10000, 10000 + k - 1, nodes, links, lnk=["c", 0, k], surface="s", identifier="big")
 
 
+FULL = {"properties": True, "lnk": True}
+
+
+def char_doc(codec, size, shift, variant, indent):
+    """Deterministic multi-graph document for `codec` whose text is longer than `size` characters; the leading
+    graph's text varies with `shift` (1..40 characters of constant), so that graph boundaries fall at
+    different offsets around the multiples of the readers' block sizes (8192 / 16384 / 65536)."""
+    mod = CODECS[codec]
+    first = dmrs_j(10000, 10000, [node_j(10000, "_pad_v_1", "e", [("TENSE", "past")], carg="p" * shift, lnk=["c", 0, 3])], [])
+    cycle = [
+        dmrs_j(10000, 10000, [node_j(10000, "_rain_v_1", "e", [("TENSE", "past"), ("SF", "prop")], lnk=["c", 0, 5],
+                                     surface="rains" if codec != "sd" else None)], [],
+               lnk=["c", 0, 5], surface="it rains", identifier="i1"),
+        dmrs_j(10000, None, [node_j(10000, "_the_q", None, lnk=["c", 0, 3]), node_j(10001, "_dog_n_1", "x", [("NUM", "sg")], lnk=["c", 4, 7]),
+                             node_j(10002, "named", "x", [("PERS", "3")], carg="Kim \"K\" <&> straße", lnk=["c", 8, 11])],
+               [link_j(10000, 10001, "RSTR", "H"), link_j(10001, 10002, "MOD", "EQ")]),
+        dmrs_j(10000, None, [node_j(10000, "_x_n_1", "x", [("IND", "+")])], []),
+        dmrs_j(10000, 10001, [node_j(10000, "_a_a_1", "e"), node_j(10001, "_b_n_1", "x")],
+               [link_j(10000, 10001, "ARG1", "EQ"), link_j(10000, 10001, "ARG2", "NEQ")], identifier="x-2"),
+        dmrs_j(10000, None, [node_j(10000, "udef_q", None), node_j(10001, "_c_n_1", "x", [("A", "b")], lnk=["c", 1, 2])],
+               [link_j(10000, 10001, "RSTR", "H")]),
+    ]
+    cycle = cycle[variant % len(cycle):] + cycle[:variant % len(cycle)]
+    ds = [first]
+    n = len(mod.encode(build(first), indent=indent, **FULL))
+    sizes = [len(mod.encode(build(g), indent=indent, **FULL)) for g in cycle]
+    i = 0
+    while n <= size + 200:
+        ds.append(copy.deepcopy(cycle[i % len(cycle)]))
+        n += sizes[i % len(cycle)]
+        i += 1
+    while len(mod.dumps([build(dj) for dj in ds], indent=indent, **FULL)) <= size:
+        for _ in range(5):
+            ds.append(copy.deepcopy(cycle[i % len(cycle)]))
+            i += 1
+    return ds
+
+
+def churn_structures(seed):
+    """12 different DMRSs of the same shape (so that freed objects' addresses are reused)"""
+    out = []
+    for k in range(12):
+        t = (seed * 12 + k)
+        out.append(dmrs_j(10000 + (t % 2), 10000,
+                          [node_j(10000, "_w%d_n_%d" % (t, k), ["x", "e", "i"][t % 3], [("NUM", ["sg", "pl"][t % 2]), ("PERS", str(t % 3 + 1))],
+                                  carg="c%d" % t, lnk=["c", t, t + 1 + k], surface="s%d" % t),
+                           node_j(10001, "_v%d_v_1" % t, "e", [("TENSE", ["past", "pres"][k % 2])], lnk=["c", k, k + 2])],
+                          [link_j(10001, 10000, "ARG%d" % (t % 3 + 1), ["NEQ", "EQ", "H"][k % 3])],
+                          lnk=["c", 0, t], surface="surf%d" % t, identifier="id%d" % t))
+    return out
+
+
 OPTS = [{"properties": p, "lnk": l} for p in (True, False) for l in (True, False)]
 INDENTS = [None, "true", 0, 1, 2, 3, 4]
 
@@ -716,6 +772,20 @@ class C02(Check):
             yield {"kind": "rt", "name": "long-%d" % shift, "long": True, "ds": long_doc(shift, total, shift, oo),
                    "o": oo, "indent": ind, "single": False}
             count += 1
+        # long documents for every codec by text length (block-wise readers: 8 KiB / 16 KiB / 64 KiB)
+        sizes = [(16384, [1, 2, 3, 7, 19, 40]), (65536, [5, 23])]
+        if tier != "quick":
+            sizes.append((131072, [11, 31]))
+        for c in ("x", "j", "p", "sd"):
+            for size, shifts in sizes:
+                for i, sh in enumerate(shifts):
+                    yield {"kind": "longdoc", "codec": c, "size": size, "shift": sh, "variant": i,
+                           "indent": None if i % 2 == 0 else 2, "file": ["stringio", "path"][i % 2]}
+                    count += 1
+        # object churn: state keyed by object identity
+        for seed in range(3):
+            yield {"kind": "churn", "seed": seed, "o": OPTS[seed % 4]}
+            count += 1
         for k, ind in ((130, None), (150, "true")):
             yield {"kind": "rt", "name": "big-%d" % k, "long": True, "ds": [big_graph(k)], "o": full, "indent": ind,
                    "single": True}
@@ -725,7 +795,12 @@ class C02(Check):
     def random_cases(self, rng, n, kinds=None):
         for _ in range(n):
             r = rng.random()
-            k = rng.choice(kinds) if kinds else ("rt" if r < 0.78 else "sd_dec" if r < 0.92 else "pred")
+            k = rng.choice(kinds) if kinds else ("rt" if r < 0.78 else "sd_dec" if r < 0.915 else "churn" if r < 0.92 else "pred")
+            if k == "churn":
+                yield {"kind": "churn", "seed": rng.randrange(3, 10**6), "o": rng.choice(OPTS)}
+                continue
+            if k == "longdoc":
+                k = "rt"
             if k == "rt":
                 odd = rng.choice([0.0, 0.0, 0.0, 0.0, 0.1, 0.3])
                 single = rng.random() < 0.6
@@ -795,6 +870,13 @@ class C02(Check):
                 return {"tag": cps(e.tag), "attrs": [[cps(a), cps(b)] for a, b in e.attrib.items()], "text": ocps(e.text)}
             return {"normalize": cps(predicate.normalize(p)), "is_surface": predicate.is_surface(p),
                     "enc": guard(leaf), "dec": guard(lambda: cps(dmrx._decode_pred(reparse(dmrx._encode_pred(p)))))}
+        if k == "longdoc":
+            mod = CODECS[case["codec"]]
+            ds = [build(dj) for dj in char_doc(case["codec"], case["size"], case["shift"], case["variant"], case["indent"])]
+            text = mod.dumps(ds, indent=case["indent"], **FULL)
+            return {"graphs": len(ds), "chars": len(text)}
+        if k == "churn":
+            return {"n": 12}
         if k == "sd_dec":
             text = uncps(case["text"])
             try:
@@ -834,6 +916,8 @@ class C02(Check):
 
     def model_request(self, case):
         k = case["kind"]
+        if k in ("longdoc", "churn"):
+            return None
         if k == "pred":
             return {"op": "pred", "p": case["p"]}
         if k == "sd_dec":
@@ -887,7 +971,8 @@ class C02(Check):
                 safe = all(lower_safe(n.predicate) and all(ascii_case_safe(a) and lower_safe(b)
                                                            for a, b in n.properties.items())
                            and (n.type is None or lower_safe(n.type)) for n in d.nodes) \
-                    and (c != "p" or all(l.role is None or upper_safe(l.role) for l in d.links))
+                    and (c != "p" or all((l.role is None or ascii_case_safe(l.role))
+                                         and (l.post is None or ascii_case_safe(l.post)) for l in d.links))
                 if not safe or any(set(n.predicate) & BAD_CHARS for n in d.nodes):
                     continue
                 for f in ("enc", "dec"):
@@ -897,13 +982,89 @@ class C02(Check):
         return None
 
     # ---- direct oracle (public API only, independent of the model)
+    def setup(self):
+        self.tmp = tempfile.mkdtemp(prefix="c02-", dir="/var/tmp")
+
+    def teardown(self):
+        shutil.rmtree(getattr(self, "tmp", ""), ignore_errors=True)
+
+    def oracle_longdoc(self, case, fail):
+        c = case["codec"]
+        mod, cname = CODECS[c], CODEC_NAME[c]
+        ind = case["indent"]
+        ds = [build(dj) for dj in char_doc(c, case["size"], case["shift"], case["variant"], ind)]
+        own = [canon_dmrs(mod.decode(mod.encode(d, indent=ind, **FULL))) for d in ds]
+        text = mod.dumps(ds, indent=ind, **FULL)
+        if len(text) <= case["size"]:
+            fail("harness: long document is not longer than the block size", [len(text), case["size"]])
+
+        def same(tag, back):
+            if len(back) != len(ds):
+                fail("%s: long document: %s returns a different number of graphs" % (cname, tag), [len(ds), len(back)])
+                return
+            for i, b in enumerate(back):
+                if canon_dmrs(b) != own[i]:
+                    fail("%s: long document: graph read by %s differs from its own round trip" % (cname, tag),
+                         {"graph": i, "of": len(ds), "chars": len(text)})
+                    return
+        try:
+            same("loads", mod.loads(text))
+            if case["file"] == "stringio":
+                buf = io.StringIO()
+                mod.dump(ds, buf, indent=ind, **FULL)
+                if buf.getvalue().rstrip("\n") != text.rstrip("\n"):
+                    fail("%s: long document: dump() differs from dumps()" % cname, None)
+                same("load(StringIO)", mod.load(io.StringIO(buf.getvalue())))
+            else:
+                tmp = getattr(self, "tmp", None) or tempfile.mkdtemp(prefix="c02-", dir="/var/tmp")
+                self.tmp = tmp
+                fn = os.path.join(tmp, "long-%s-%d-%d.txt" % (c, case["size"], case["shift"]))
+                with open(fn, "w", encoding="utf-8") as fh:   # a real file, written by the handle API
+                    mod.dump(ds, fh, indent=ind, **FULL)
+                same("load(path)", mod.load(fn))
+                with open(fn, encoding="utf-8") as fh:
+                    same("load(file handle)", mod.load(fh))
+                os.remove(fn)
+        except Exception as e:
+            fail("%s: long document is not readable" % cname, "%s: %s" % (type(e).__name__, str(e)[:200]))
+
+    def oracle_churn(self, case, fail):
+        o = case["o"]
+        djs = churn_structures(case["seed"])
+        # reference: all twelve alive at once (distinct addresses)
+        alive = [build(dj) for dj in djs]
+        ref = [{c: mod.encode(d, **o) for c, mod in CODECS.items()} for d in alive]
+        refdec = [{c: canon_dmrs(mod.decode(ref[i][c])) for c, mod in CODECS.items()} for i in range(len(alive))]
+        del alive
+        gc.collect(0)
+        for k, dj in enumerate(djs):
+            d = build(dj)
+            got = {c: mod.encode(d, **o) for c, mod in CODECS.items()}
+            dec = {c: canon_dmrs(mod.decode(got[c])) for c, mod in CODECS.items()}
+            del d
+            gc.collect(0)
+            for c in CODECS:
+                if got[c] != ref[k][c]:
+                    fail("%s: encoding a freshly built structure after others were dropped gives a stale text "
+                         "(state keyed by object identity)" % CODEC_NAME[c], {"k": k, "want": ref[k][c][:200], "got": got[c][:200]})
+                    return
+                if dec[c] != refdec[k][c]:
+                    fail("%s: decoding after object churn gives a different graph" % CODEC_NAME[c], {"k": k})
+                    return
+
     def oracle(self, case, res):
-        if case["kind"] != "rt":
-            return []
         fails = []
 
         def fail(clause, detail):
             fails.append({"clause": clause, "detail": detail})
+        if case["kind"] == "longdoc":
+            self.oracle_longdoc(case, fail)
+            return fails
+        if case["kind"] == "churn":
+            self.oracle_churn(case, fail)
+            return fails
+        if case["kind"] != "rt":
+            return []
         ds = [build(dj) for dj in case["ds"]]
         o = case["o"]
         ind = py_indent(case["indent"])
@@ -1112,6 +1273,13 @@ class C02(Check):
             counters[k] = counters.get(k, 0) + v
         k = case["kind"]
         inc("kind:" + k)
+        if k == "longdoc":
+            if res is not None:
+                inc("longdoc:%s:>%dK" % (case["codec"], case["size"] // 1024))
+                inc("longdoc:graphs", res["graphs"])
+            return
+        if k == "churn":
+            return
         if k == "sd_dec":
             if res is not None:
                 inc("sd_dec:" + ("lex_error" if "lex_error" in res else "ok" if "ok" in res else res.get("err", "?")))
